@@ -13,10 +13,14 @@ func main() {
 	for _, s := range os.Args[1:] {
 		if b, err := os.ReadFile(s); err == nil {
 			s = string(b)
+		} else {
+			s = strings.ReplaceAll(s, `\n`, "\n")
 		}
-		s = strings.ReplaceAll(s, `\n`, "\n")
 		for _, e := range engines {
-			_, g, err := lay.Run(s, e, nil)
+			d, g, err := lay.Run(s, e, nil)
+			if err == nil && os.Getenv("BB") != "" {
+				bbProbe(d)
+			}
 			if err != nil {
 				fmt.Printf("%s ERR %v\n", e, err)
 				continue
